@@ -881,3 +881,74 @@ def rule_seek_product_bounded(ctx):
                                          "and the seek succeeds at an unrelated position" % (render(y)[:70], p))
     ctx.floor("SEEKPROD", 2, n, "(seek offsets that multiply a caller-supplied integer)")
     return n
+
+
+class _CtrGuard(PathAnalysis):
+    """user = frozenset of (record, field) that were compared with a limit constant on this path"""
+
+    def __init__(self, prog, fields):
+        super().__init__(prog)
+        self.fields = fields
+        self.sites = {}
+
+    def init_user(self, func):
+        return frozenset()
+
+    def on_assume(self, func, bid, cond, pol, env, user):
+        u = None
+        for c in walk(cond, True):
+            if c[0] == "bin" and c[1] in (">", ">=", "==", "<", "<=", "!=") and mem_field(c[2]) in self.fields and is_int(c[3]) and abs(int_val(c[3])) >= 255:
+                u = (u or set(user))
+                u.add(mem_field(c[2]))
+        return frozenset(u) if u else user
+
+    def on_stmt(self, func, bid, idx, stmt, env, user):
+        for x in walk(stmt["e"]):
+            t = None
+            if x[0] == "incdec" and x[1] == "++":
+                t = strip(x[3])
+            elif x[0] == "asg" and x[1] == "+=":
+                t = strip(x[2])
+            if t is not None and mem_field(t) in self.fields:
+                k = (mem_field(t), stmt.get("l", 0), render(t))
+                self.sites[k] = self.sites.get(k, True) and (mem_field(t) in user)
+        return user
+
+
+def rule_counter_wrap_guard(ctx):
+    """COUNTERWRAP (C20): the library counts members, references and definitions in 16-bit fields of its in-memory records.  Every
+    `field++` on such a field must be preceded, on every path that reaches it, by a test of that same field against a limit
+    constant: an increment whose limit test sits on only some of the paths, or is missing, lets the counter wrap to zero or to a
+    negative value, and everything that was counted is lost to later calls."""
+    prog = ctx.prog
+    n = 0
+    for f in prog.lib_funcs():
+        fields = set()
+        for bid, i, s, x in f.nodes(True):
+            t = None
+            if x[0] == "incdec" and x[1] == "++":
+                t = strip(x[3])
+            elif x[0] == "asg" and x[1] == "+=":
+                t = strip(x[2])
+            if t is None or kind(t) != "mem":
+                continue
+            ty = t[4] if len(t) > 4 else None
+            bits = prog.int_bits(ty) if isinstance(ty, str) else None
+            bits = bits[0] if isinstance(bits, tuple) else bits
+            if bits is None or bits > 16:
+                continue
+            fields.add(mem_field(t))
+        if not fields:
+            continue
+        a = _CtrGuard(prog, fields)
+        a.fails = fail_values(f, prog)
+        a.run(f)
+        for (mf, line, shown), ok in sorted(a.sites.items()):
+            n += 1
+            key = "COUNTERWRAP:%s:%s" % (f.name, shown)
+            if ok:
+                ctx.holds("COUNTERWRAP", key, f.where(line), "`%s` is incremented only on paths that compared it with a limit" % shown, nontrivial=True)
+            else:
+                ctx.violated("COUNTERWRAP", key, f.where(line), "the 16-bit counter `%s` is incremented on a path where it was not compared with a limit: it wraps, and what it counted is lost to every later call" % shown)
+    ctx.floor("COUNTERWRAP", 3, n, "(increments of 16-bit counter fields)")
+    return n
